@@ -151,10 +151,25 @@ def renameLoop (names : List Name) (mustExist : Bool) :
   | (o, n) :: r, d =>
     if names.contains o then
       match d.lookup o with
-      | some v => renameLoop names mustExist r (dset (dpop d o) n v)
+      | some v =>
+        -- (after the `fix:` commit) renaming onto a name that is still there is refused instead of overwriting that field
+        if dhas (dpop d o) n then .error .key
+        else renameLoop names mustExist r (dset (dpop d o) n v)
       | none => .error .key
     else if mustExist then .error .key
     else renameLoop names mustExist r d
+
+/-- the loop as coded before that fix: `d[n] = d.pop(o)` silently overwrites an existing field `n` -/
+def renameLoopOld (names : List Name) (mustExist : Bool) :
+    List (Name × Name) → List (Name × β) → Except Err (List (Name × β))
+  | [], d => .ok d
+  | (o, n) :: r, d =>
+    if names.contains o then
+      match d.lookup o with
+      | some v => renameLoopOld names mustExist r (dset (dpop d o) n v)
+      | none => .error .key
+    else if mustExist then .error .key
+    else renameLoopOld names mustExist r d
 
 end Dict
 
@@ -537,5 +552,74 @@ def stepTX (ts : List Table) : XOp → List Table × Except Err Out
       match src.cols.lookup m with
       | none => (ts, .error .key)
       | some col => stepT ts (.new [(m, col)])
+
+
+/-! ### read-only arrays and the order of checks and writes
+
+A handed-in array can be read-only (`ndarray.flags.writeable = False`: memory-mapped files, `np.broadcast_to`, pyarrow
+zero-copy).  Read-only-ness belongs to the array object, i.e. to the location; newly allocated arrays are writeable.
+`set_selection` is the only operation that needs writeable arrays. -/
+
+/-- `set_selection` on a target one of whose columns is read-only -/
+def roBlocked (ro : List Loc) (s : St) : XOp → Bool
+  | .base (.setSel c _ _) =>
+    match s.conts[c]? with
+    | some cont => cont.fields.any fun p => ro.contains p.2
+    | none => false
+  | _ => false
+
+/-- the operations with read-only locations `ro`, as coded after the fixes: `set_selection` first fetches the partner's
+columns (`KeyError`), then checks that all its arrays are writeable (`ValueError`), and only then writes -/
+def stepXR (ro : List Loc) (s : St) (xop : XOp) : St × Except Err Out :=
+  if roBlocked ro s xop then
+    match (stepX s xop).2 with
+    | .error .key => (s, .error .key)
+    | .error .cont => (s, .error .cont)
+    | _ => (s, .error .value)
+  else stepX s xop
+
+/-- `set_selection` **as coded before the fixes**: one field after the other, the partner's column is looked up and the
+assignment made inside the same loop iteration, so an exception leaves the fields written so far -/
+def setSelSeqLoop (ro : List Loc) (sel : Sel) (src : Table) (fields : List (Name × Loc)) :
+    List Name → List Col → List Col × Except Err Out
+  | [], h => (h, .ok .unit)
+  | n :: r, h =>
+    match fields.lookup n, src.cols.lookup n with
+    | some l, some c2 =>
+      match h[l]? with
+      | none => (h, .error .cont)
+      | some dst =>
+        if ro.contains l then (h, .error .value)
+        else match putSel dst sel c2 with
+          | .ok c' => setSelSeqLoop ro sel src fields r (h.set l c')
+          | .error e => (h, .error e)
+    | _, _ => (h, .error .key)
+
+def setSelSeq (ro : List Loc) (s : St) (c : Nat) (sel : Sel) (d : Nat) : St × Except Err Out :=
+  match s.conts[c]?, viewAt s d with
+  | some cont, .ok src =>
+    let r := setSelSeqLoop ro sel src cont.fields cont.names s.heap
+    (⟨r.1, s.conts⟩, r.2)
+  | _, _ => (s, .error .cont)
+
+/-- `append` **as coded before the fix**: every field is rebound inside the loop, `_len` afterwards -/
+def appendSeqLoop (src : Table) : List Name → List Col → List (Name × Loc) → List Col × List (Name × Loc) × Except Err Out
+  | [], h, fs => (h, fs, .ok .unit)
+  | n :: r, h, fs =>
+    match fs.lookup n, src.cols.lookup n with
+    | some l, some c2 =>
+      match h[l]? with
+      | none => (h, fs, .error .cont)
+      | some c1 => appendSeqLoop src r (h ++ [npAppend c1 c2]) (dset fs n h.length)
+    | _, _ => (h, fs, .error .key)
+
+def appendSeq (s : St) (c d : Nat) : St × Except Err Out :=
+  match s.conts[c]?, viewAt s d with
+  | some cont, .ok src =>
+    let r := appendSeqLoop src cont.names s.heap cont.fields
+    match r.2.2 with
+    | .ok o => (⟨r.1, s.conts.set c { cont with fields := r.2.1, len := cont.len + src.len, idx := none }⟩, .ok o)
+    | .error e => (⟨r.1, s.conts.set c { cont with fields := r.2.1 }⟩, .error e)
+  | _, _ => (s, .error .cont)
 
 end Store
